@@ -16,11 +16,23 @@ def _any_policy(zone, version):  # stands for whatever callable the application 
     raise NotImplementedError
 
 
+import z3 as _z3  # noqa: E402
+from pyvc import sym as _S  # noqa: E402
+
+# the policy's answer is some fixed but arbitrary function of what it is shown: how many versions are retained and
+# which version is the candidate (pure: it neither changes the zone nor depends on anything else)
+_POLICY = _z3.Function("pruning_policy", _S.IntS, _S.IntS, _S.BoolS)
+
+
 def _policy_model(I, args, kwargs):
-    return SBool(I.path.fresh_bool("policy_says_prune"))
+    zone, version = args
+    return SBool(_POLICY(_S.to_z3(zone.fields["_versions"].n), version.id))
 
 
-REG.external(_any_policy, _policy_model, "pruning policy: an arbitrary application callable; each call returns an unconstrained bool")
+REG.external(_any_policy, _policy_model, "pruning policy: an arbitrary pure application callable (an uninterpreted predicate of the "
+             "number of retained versions and the candidate version)")
+REG.spec("policy_says", lambda I, n, v: SBool(_POLICY(_S.to_z3(n), v.id)), lambda n, v: True,
+         "the answer of the installed pruning policy for a zone with n retained versions and candidate v")
 
 ZONE = T.obj("dns.versioned.Zone", raw=True, _versions=T.list_of(T.ref(VER)), _readers=T.list_of(T.ref(TXN)),
              _pruning_policy=T.const(_any_policy))
@@ -29,8 +41,12 @@ _V, _OV = "self._versions", "old_self._versions"
 _INCR = lambda v: f"all({v}[a].id < {v}[b].id for a in range(len({v})) for b in range(a + 1, len({v})))"
 # every open reader holds one of the retained versions
 # ghost parameter pin: the position in the deque of the version each open reader holds
-_PINNED_IN = lambda v, sh="0": (f"len(pin) == len(self._readers) and all(0 <= pin[r] - {sh} and pin[r] - {sh} < len({v}) "
-                                f"and ({v}[pin[r] - {sh}] is self._readers[r].version) for r in range(len(self._readers)))")
+_PINNED_IN = lambda v, sh="0", pin="pin": (
+    f"len({pin}) == len(self._readers) and all(0 <= {pin}[r] - {sh} and {pin}[r] - {sh} < len({v}) "
+    f"and ({v}[{pin}[r] - {sh}] is self._readers[r].version) for r in range(len(self._readers)))")
+# pruning went as far as it may: it stopped at a version some reader holds (or at the newest one), or the policy said no
+_MAXIMAL = (f"(len(self._readers) == 0 and len({_V}) == 1) or any(self._readers[r].version.id <= {_V}[0].id for r in range(len(self._readers))) "
+            f"or not policy_says(len({_V}), {_V}[0])")
 _SUFFIX = (f"len({_V}) <= len({_OV}) and all({_V}[i] is {_OV}[i + (len({_OV}) - len({_V}))] for i in range(len({_V})))")
 
 REG.contract(
@@ -43,6 +59,7 @@ REG.contract(
         f"len({_V}) >= 1", _SUFFIX, _INCR(_V),
         f"least_kept <= {_V}[len({_V}) - 1].id",
         "all(least_kept <= self._readers[r].version.id for r in range(len(self._readers)))",
+        f"(len(self._readers) == 0 and least_kept == {_V}[len({_V}) - 1].id) or any(self._readers[r].version.id == least_kept for r in range(len(self._readers)))",
     ], decreases=[f"len({_V})"])},
     ensures=[
         # a contiguous run of history that ends with the newest version
@@ -50,10 +67,12 @@ REG.contract(
         # every version held by an open reader (and everything newer) is retained, at its shifted position
         _PINNED_IN(_V, f"(len({_OV}) - len({_V}))"),
         _INCR(_V),
+        # and otherwise exactly what the policy allows
+        _MAXIMAL,
     ],
     props=["C11"],
     note="pruning removes versions only from the old end, never the newest one and never a version at or after the "
-         "oldest one an open reader holds, whatever the policy callable answers; terminates",
+         "oldest one an open reader holds, and goes exactly as far as the policy callable allows; terminates",
 )
 
 REG.lemma(
@@ -154,4 +173,37 @@ REG.contract(
     ensures=_HANDOVER + ["self._write_txn is None"],
     props=["C12"],
     note="ending the write transaction releases the write permission and hands it to the head of the queue",
+)
+
+
+# ----------------------------------------------------------------------------- closing a reader
+_ZONE_R = T.obj("dns.versioned.Zone", raw=True, _versions=T.list_of(T.ref(VER)), _readers=T.list_of(T.ref(TXN)),
+                _pruning_policy=T.const(_any_policy), _version_lock=T.obj("_thread.LockType"))
+_OR = "old_self._readers"
+REG.contract(
+    "dns.versioned.Zone._end_read",
+    # ghosts: pin (positions of the readers' versions before), r0 (which reader closes), pin2 (pin without entry r0)
+    params={"self": _ZONE_R, "txn": T.ref(TXN), "pin": T.id_seq(), "pin2": T.id_seq(), "r0": T.int},
+    requires=[
+        f"len({_V}) >= 1", _INCR(_V), _PINNED_IN(_V),
+        # the set of open readers: distinct transactions, txn is the one at r0
+        "all(not (self._readers[a] is self._readers[b]) for a in range(len(self._readers)) for b in range(a + 1, len(self._readers)))",
+        "0 <= r0 and r0 < len(self._readers) and (self._readers[r0] is txn)",
+        "len(pin2) == len(pin) - 1 and all(pin2[i] == pin[i] for i in range(r0)) and all(pin2[i] == pin[i + 1] for i in range(r0, len(pin) - 1))",
+    ],
+    modifies={"self._versions": None, "self._readers": None},
+    ghost_at_calls={"dns.versioned.Zone._prune_versions_unlocked": {"pin": "pin2"}},
+    raises=[],
+    ensures=[
+        # the reader is gone, the others keep their place
+        f"len(self._readers) == len({_OR}) - 1",
+        f"all(self._readers[i] is {_OR}[i] for i in range(r0)) and all(self._readers[i] is {_OR}[i + 1] for i in range(r0, len({_OR}) - 1))",
+        f"len({_V}) >= 1", _SUFFIX, _INCR(_V),
+        # what the remaining readers hold is retained; beyond that, exactly what the policy allows - at once, not at some later event
+        _PINNED_IN(_V, f"(len({_OV}) - len({_V}))", "pin2"),
+        _MAXIMAL,
+    ],
+    props=["C11"],
+    note="closing a reader unregisters exactly that transaction and prunes immediately: versions only it was pinning go as far as "
+         "the policy allows, versions other readers hold stay (modular over the pruning contract)",
 )
